@@ -959,7 +959,7 @@ fn c11_rd_deferring_established() {
     let _ = (k1, s);
 }
 
-//@ id=C11 tier=quick cap=1500
+//@ id=C11 tier=quick cap=1500 mem=24
 //@ fn: gr::RestartingDeferral::process, remove_peer, complete_for, finish_awaiting, finish_deferring, is_completed
 //@ bound: one step from ANY deferring deferral state (pending = any map over peers {a,b,c} -> non-empty subset of {v4,v6,vpn4}, at least one peer) x EorReceived(peer in {a,b,c,unknown}, f in {v4,v6,vpn4}); unwind 6
 //@ desc: reference set-machine: a family is released exactly in the step after which no pending peer lists it; EndDeferral exactly when the machine completes; unknown / non-GR peers never block
